@@ -172,6 +172,9 @@ struct Setting {
     /// None = no limit; Some(f) = f times the unlimited solve time; f64::INFINITY = Duration::MAX
     limit: Option<f64>,
     gap: Option<f64>,
+    /// a solver object that was configured once before (gap 0.9, limit one hour) and is configured again:
+    /// the last setting counts
+    reconfigured: bool,
 }
 
 const FRACTIONS: [f64; 13] = [0.0, 0.002, 0.01, 0.03, 0.08, 0.15, 0.25, 0.4, 0.6, 0.85, 1.2, 3.0, 50.0];
@@ -195,6 +198,14 @@ fn run_setting(spec: &LmSpec, lm: &rooc::LinearModel, s: &Setting, base: Duratio
         Door::SolverObject => {
             use rooc::Solver;
             let mut solver = rooc::Microlp::new();
+            if s.reconfigured {
+                if s.gap.is_some() {
+                    solver = solver.with_mip_gap(0.9);
+                }
+                if limit.is_some() {
+                    solver = solver.with_time_limit(Duration::from_secs(3600));
+                }
+            }
             if let Some(g) = s.gap {
                 solver = solver.with_mip_gap(g);
             }
@@ -206,6 +217,14 @@ fn run_setting(spec: &LmSpec, lm: &rooc::LinearModel, s: &Setting, base: Duratio
         Door::Builder => {
             let (mb, handles) = spec_to_m(spec).to_builder();
             let mut solver = rooc::Microlp::new();
+            if s.reconfigured {
+                if s.gap.is_some() {
+                    solver = solver.with_mip_gap(0.9);
+                }
+                if limit.is_some() {
+                    solver = solver.with_time_limit(Duration::from_secs(3600));
+                }
+            }
             if let Some(g) = s.gap {
                 solver = solver.with_mip_gap(g);
             }
@@ -272,19 +291,22 @@ impl Driver for C15 {
                 (gen_lm(&mut rng, &LpGenOpts { max_vars: 6, max_rows: 6, moderate_coeffs: true, ..Default::default() }), "g-lp")
             };
             // settings are drawn before anything is skipped so that case numbers are stable
-            let mut settings: Vec<Setting> = vec![Setting { door: Door::Function, limit: None, gap: None }];
+            let mut settings: Vec<Setting> = vec![Setting { door: Door::Function, limit: None, gap: None, reconfigured: false }];
             while settings.len() < 50 {
                 let door = [Door::Function, Door::Function, Door::SolverObject, Door::Builder][rng.gen_range(0..4)];
                 let limit = if rng.gen_bool(0.12) { None } else { Some(*FRACTIONS.choose(&mut rng).unwrap()) };
-                settings.push(Setting { door, limit, gap: *GAPS.choose(&mut rng).unwrap() });
+                let gap = *GAPS.choose(&mut rng).unwrap();
+                let reconfigured = door != Door::Function && rng.gen_bool(0.3);
+                settings.push(Setting { door, limit, gap, reconfigured });
             }
             for g in BAD_GAPS {
                 let door = [Door::Function, Door::SolverObject, Door::Builder][rng.gen_range(0..3)];
                 let limit = if rng.gen_bool(0.5) { None } else { Some(*FRACTIONS.choose(&mut rng).unwrap()) };
-                settings.push(Setting { door, limit, gap: Some(g) });
+                let reconfigured = door != Door::Function && rng.gen_bool(0.5);
+                settings.push(Setting { door, limit, gap: Some(g), reconfigured });
             }
-            settings.push(Setting { door: Door::Function, limit: Some(f64::INFINITY), gap: None });
-            settings.push(Setting { door: Door::Builder, limit: Some(f64::INFINITY), gap: Some(0.01) });
+            settings.push(Setting { door: Door::Function, limit: Some(f64::INFINITY), gap: None, reconfigured: false });
+            settings.push(Setting { door: Door::Builder, limit: Some(f64::INFINITY), gap: Some(0.01), reconfigured: true });
             assert!(settings.len() <= PER_MODEL);
             let first = mi * PER_MODEL;
             if first + settings.len() <= start || only.is_some_and(|o| o < first || o >= first + settings.len()) {
@@ -525,7 +547,7 @@ impl Driver for C15 {
         Some((format!("never-returns({};{lim})", c.kind), format!("the call did not return: worker ended with {} ({lim})", c.kind)))
     }
     fn rule(&self) -> String {
-        "small MILP models (knapsack / covering models of 5-12 Boolean, integer and bounded continuous variables with 1-3 capacity rows and an optional equality, which need a real branch-and-bound search; 15% with one objective coefficient multiplied by 1e4 or 1e5; plus G-lp models incl. infeasible, unbounded and continuous ones). Each model is first solved without limits (median of three timings); then ~57 settings: door (solve_milp_lp_problem_with, the Microlp solver object, ModelBuilder::solve_with(Microlp..) with handle read-back) x time limit (none, 0, 0.2%..85% of the unlimited time, 1.2x..50x, Duration::MAX) x MIP gap (none, 0, -0, 1e-9, 0.01, 0.1, 0.5, 10; invalid: -0.1, NaN, +inf, -inf, -1e-300). Oracle per outcome: a returned solution must pass the exact certificate (bounds, integrality, rows within 1e-6, value = c.x); label Optimal requires the objective within gap*max(|returned|,|optimum|, the same without the offset) + 1e-6 of the certified exact optimum; models whose exact answer lies beyond 1e6 or on a ray with rounding-level slope are skipped; label Feasible only requires feasibility; Infeasible/Unbounded must match the certified verdict; any other error is accepted only when a finite time limit was set; invalid gaps must give an error. A replay repeats the recorded setting up to 300 times because the landing point of a time limit is timing dependent. non-trivial = distinct (model, setting) judged".into()
+        "small MILP models (knapsack / covering models of 5-12 Boolean, integer and bounded continuous variables with 1-3 capacity rows and an optional equality, which need a real branch-and-bound search; 15% with one objective coefficient multiplied by 1e4 or 1e5; plus G-lp models incl. infeasible, unbounded and continuous ones). Each model is first solved without limits (median of three timings); then ~57 settings: door (solve_milp_lp_problem_with, the Microlp solver object, ModelBuilder::solve_with(Microlp..) with handle read-back) x time limit (none, 0, 0.2%..85% of the unlimited time, 1.2x..50x, Duration::MAX) x MIP gap (none, 0, -0, 1e-9, 0.01, 0.1, 0.5, 10; invalid: -0.1, NaN, +inf, -inf, -1e-300); a third of the solver objects were configured once before (gap 0.9, limit one hour) and are configured again - the last setting counts. Oracle per outcome: a returned solution must pass the exact certificate (bounds, integrality, rows within 1e-6, value = c.x); label Optimal requires the objective within gap*max(|returned|,|optimum|, the same without the offset) + 1e-6 of the certified exact optimum; models whose exact answer lies beyond 1e6 or on a ray with rounding-level slope are skipped; label Feasible only requires feasibility; Infeasible/Unbounded must match the certified verdict; any other error is accepted only when a finite time limit was set; invalid gaps must give an error. A replay repeats the recorded setting up to 300 times because the landing point of a time limit is timing dependent. non-trivial = distinct (model, setting) judged".into()
     }
     fn thresholds(&self, tier: Tier) -> Thresholds {
         let s = tier.pick(1, 25);
